@@ -120,3 +120,7 @@ Theorem src_cubic_is_model : forall c t t0 t1,
   src_cubic_split c t = c_split c t /\ src_cubic_before_split c t = c_before_split c t /\
   src_cubic_after_split c t = c_after_split c t.
 Proof. intros; repeat split; reflexivity. Qed.
+
+(* ---- hit_test.rs: the per-segment step of the winding number *)
+Lemma src_test_segment_is_model p a b w : src_test_segment p (mkLine a b) w = test_segment p a b w.
+Proof. reflexivity. Qed.
